@@ -10,10 +10,10 @@ import (
 
 func init() {
 	register(&propDef{
-		ID:    "C09",
-		Level: "other",
+		ID:      "C09",
+		Level:   "other",
 		Explain: "Structural necessary conditions of byte-stream transparency, each quantifying over all segmentations / close orders: (B1) once a buffered reader (bufio.NewReader, or the ReadWriter returned by Hijack) has been placed over a client connection, the raw connection is never used as a copy source — the reader is — and a hijacked ReadWriter is not discarded; (B2) a function that starts copy goroutines reporting on one channel receives as many completions as it started on every path to return (otherwise the deferred Close of both sides cuts the direction still running: a client that half-closes after sending loses the reply); (B3) copy loops write exactly buf[0:n] with n the count returned by the read of the same buffer in the same iteration, and a short or failed write leaves the loop with an error; (B4) when the route asks for the PROXY protocol the header is written before any other byte can reach the upstream, and a buffer filled by a consuming read from the client before the tunnel starts (the captured ClientHello) is written to the upstream, whole, before the copy goroutines start; (B5) every tcp.Handler implementation that dials supports the PROXY header option; (W1) the tcp.conn wrapper forwards Read/Write/Close unchanged. Also: a relay writes the bytes a read returned before it looks at the read error, and Peek lengths stay within the reader buffer (B6). (B7) no SetLinger(n >= 0) on a tunnel connection (Close would discard queued data); Not decided: byte-for-byte delivery over real sockets (run-time behaviour of the kernel and net package).",
-		Run:   runC09,
+		Run:     runC09,
 		Trusted: []string{"bufio.Reader returns buffered bytes before reading from the underlying connection", "io.Copy/copyBuffer deliver what Read returns, in order"},
 		Mutants: []mutant{
 			{Name: "abortive close configured on the upstream connection", File: "proxy/tcp/tcp_proxy.go", Old: "\tdefer out.Close()\n", New: "\tdefer out.Close()\n\tif tc, ok := out.(*net.TCPConn); ok {\n\t\ttc.SetLinger(0)\n\t}\n", Expect: "C09.B7"},
